@@ -3,6 +3,7 @@
 package interpgen
 
 import (
+	"bytes"
 	"crypto/sha256"
 	"encoding/binary"
 	"encoding/hex"
@@ -100,6 +101,12 @@ type Recorder struct {
 	Trace    []string
 	Full     bool
 	Scribble bool // overwrite every byte of every State it is handed (C19)
+	// Incons is the first inconsistency seen in a State handed to a callback: every snapshot must
+	// show the running execution (its scripts, the program counter of the instruction in progress,
+	// the item just pushed on top of one of the stacks).
+	Incons     string
+	inOp       bool
+	opS, opIdx int
 }
 
 func cp(x [][]byte) [][]byte {
@@ -109,9 +116,32 @@ func cp(x [][]byte) [][]byte {
 	}
 	return out
 }
+func (r *Recorder) flag(msg string) {
+	if r.Incons == "" {
+		r.Incons = msg
+	}
+}
+
 func (r *Recorder) ev(n string, s *interpreter.State) {
 	if r.Full {
 		r.Trace = append(r.Trace, n)
+	}
+	if s == nil {
+		r.flag(n + ": nil State")
+	} else {
+		if len(s.Scripts) < 2 {
+			r.flag(fmt.Sprintf("%s: State has %d scripts (the execution has at least two)", n, len(s.Scripts)))
+		}
+		switch n {
+		case "BO":
+			r.inOp, r.opS, r.opIdx = true, s.ScriptIdx, s.OpcodeIdx
+		case "AO", "AS", "BC", "AE":
+			r.inOp = false
+		case "bp", "ap", "bq", "aq":
+			if r.inOp && (s.ScriptIdx != r.opS || s.OpcodeIdx != r.opIdx) {
+				r.flag(fmt.Sprintf("%s: State is at %d:%d while instruction %d:%d is executing", n, s.ScriptIdx, s.OpcodeIdx, r.opS, r.opIdx))
+			}
+		}
 	}
 	if r.Scribble && s != nil {
 		scribble(s)
@@ -152,9 +182,17 @@ func (r *Recorder) AfterScriptChange(s *interpreter.State)         { r.ev("AC", 
 func (r *Recorder) AfterSuccess(s *interpreter.State)              { r.ev("OK", s) }
 func (r *Recorder) AfterError(s *interpreter.State, _ error)       { r.ev("ER", s) }
 func (r *Recorder) BeforeStackPush(s *interpreter.State, _ []byte) { r.ev("bp", s) }
-func (r *Recorder) AfterStackPush(s *interpreter.State, _ []byte)  { r.ev("ap", s) }
-func (r *Recorder) BeforeStackPop(s *interpreter.State)            { r.ev("bq", s) }
-func (r *Recorder) AfterStackPop(s *interpreter.State, _ []byte)   { r.ev("aq", s) }
+func (r *Recorder) AfterStackPush(s *interpreter.State, bb []byte) {
+	if s != nil {
+		top := func(st [][]byte) bool { return len(st) > 0 && bytes.Equal(st[len(st)-1], bb) }
+		if !top(s.DataStack) && !top(s.AltStack) {
+			r.flag(fmt.Sprintf("ap: pushed item %x is on top of neither stack in the State handed to AfterStackPush", bb))
+		}
+	}
+	r.ev("ap", s)
+}
+func (r *Recorder) BeforeStackPop(s *interpreter.State)          { r.ev("bq", s) }
+func (r *Recorder) AfterStackPop(s *interpreter.State, _ []byte) { r.ev("aq", s) }
 
 func u32(n int) []byte {
 	b := make([]byte, 4)
@@ -182,12 +220,13 @@ func TraceHash(snaps []Snapshot) string {
 
 // Result of running a program against the implementation.
 type Result struct {
-	Obs   string // ok | err | panic
-	Err   string
-	Steps int
-	Hash  string
-	Snaps []Snapshot
-	Trace []string
+	Obs    string // ok | err | panic
+	Err    string
+	Steps  int
+	Hash   string
+	Snaps  []Snapshot
+	Trace  []string
+	Incons string
 }
 
 // Built holds the caller-owned objects handed to the engine (C08 compares them before/after).
@@ -242,7 +281,7 @@ func RunWith(p *Program, rec *Recorder) Result { return RunBuilt(Build(p, rec), 
 // RunBuilt executes already built options (the caller keeps b to inspect its buffers afterwards).
 func RunBuilt(b *Built, rec *Recorder) Result {
 	obs, msg := exec(b)
-	return Result{Obs: obs, Err: msg, Steps: len(rec.Snaps), Hash: TraceHash(rec.Snaps), Snaps: rec.Snaps, Trace: rec.Trace}
+	return Result{Obs: obs, Err: msg, Steps: len(rec.Snaps), Hash: TraceHash(rec.Snaps), Snaps: rec.Snaps, Trace: rec.Trace, Incons: rec.Incons}
 }
 
 // Run executes p with a recording debugger.
